@@ -7,7 +7,7 @@
    CAS, both up to ""/null in string collections — same ids, values, references, sofas, members; (4) the second document
    is the first one at the infoset level (same elements in the same order, attributes as a set, children in order). *)
 From Cassis Require Import Base Offsets.
-From Cassis Require Import Heap Schema Canon Lex Reach XmiDoc Xmi XmiLoad XmiRt XmiRtTotal CorrC04.
+From Cassis Require Import Heap Schema Canon Lex Reach XmiDoc Xmi XmiLoad XmiRt XmiRtTotal XmiLoadCas CorrC04.
 Open Scope Z_scope.
 
 Record case := mkCase {
@@ -47,7 +47,25 @@ Definition check_reader_ok (c : case) : bool :=
   (negb (wf_rtb (k_schema c) (k_cas c)) || reader_okb (tab_parse (k_ftab c)) (k_schema c) (k_doc c))
   (* (7) C01_saved_document_is_total: wf_rt_totalb => the implementation's document satisfies total_okb *)
   && (negb (wf_rt_totalb (k_schema c) (k_cas c)) || total_okb (k_schema c) (k_doc c)).
+(* (8) [S] load_produces_wf, evaluated: the CAS the model reader builds from the first document, as a CAS of the writer model
+   (XmiLoadCas.cas_of_lcas), satisfies the premise wf_rt_totalb of the round-trip theorems, has the canonical content of the
+   loaded CAS, and the model writer saves it to the implementation's SECOND document (up to element / attribute order) *)
+Definition check_loaded_cas (c : case) : bool :=
+  match load_xmi (tab_parse (k_ftab c)) (k_schema c) false (k_doc c) with
+  | Ok lc =>
+    match cas_of_lcas lc with
+    | Ok c2 =>
+      wf_rt_totalb (k_schema c) c2
+      && match canon_xmi (k_schema c) c2, canon_loaded (k_schema c) lc with
+         | Ok x, Ok y => ccas_eqb (norm_xmi (k_schema c) x) (norm_xmi (k_schema c) y)
+         | _, _ => false end
+      && match save_xmi (tab_fmt (k_ftab c)) (k_schema c) c2 with
+         | Ok (d, _) => xdoc_perm_eqb d (k_doc2 c)
+         | _ => false end
+    | _ => false end
+  | _ => false end.
 Definition check_case (c : case) : bool :=
-  check_save c && check_load_is_denotation c && check_roundtrip c && check_resave c && check_model_load c && check_reader_ok c.
+  check_save c && check_load_is_denotation c && check_roundtrip c && check_resave c && check_model_load c && check_reader_ok c
+  && check_loaded_cas c.
 (* premises of the round-trip theorems of Props/C01.v: conditions on the schema and on the input CAS only *)
 Definition premises (c : case) : bool := wf_rt_totalb (k_schema c) (k_cas c).
